@@ -263,3 +263,28 @@ func VerifC24EpochPass() {
 	}
 	verif_reach("end")
 }
+
+// VerifC24DecayGrid: the same as VerifC24Decay with the real decay factor: (time gap, half life) from a grid that drives
+// e^(-gap/halfLife) to 1, 1/e, about 1e-18 (the smallest positive Dec) and 0; numerators and denominators stay arbitrary.
+// Unlike the stubbed harness this one replays natively as it is.
+func VerifC24DecayGrid() {
+	grid := [][2]int64{{0, int64(types.DefaultReputationHalfLifeFactor)}, {int64(types.DefaultReputationHalfLifeFactor), int64(types.DefaultReputationHalfLifeFactor)}, {1, 1}, {41, 1}, {50, 1}}
+	g := grid[verif_nondet_range("gapAndHalfLife", 0, len(grid)-1)]
+	r := types.Reputation{
+		Score:           types.QosScore{Score: verifC24Frac("score", 70), Variance: verifC24Frac("variance", 70)},
+		EpochScore:      types.QosScore{Score: verifC24Frac("epochScore", 70), Variance: verifC24Frac("epochVariance", 70)},
+		CreationTime:    1600000000,
+		TimeLastUpdated: 1600000000,
+		Stake:           sdk.NewCoin(commontypes.TokenDenom, math.NewInt(100)),
+	}
+	verif_assert("precondition-valid-reputation", r.Validate())
+	out, err := r.ApplyTimeDecayAndUpdateScore(g[1], r.TimeLastUpdated+g[0])
+	verif_assert("decay-keeps-reputation-valid", err == nil && out.Validate())
+	if err == nil {
+		verif_assert("decayed-score-not-below-epoch-contribution", out.Score.Score.Num.GTE(r.EpochScore.Score.Num) && out.Score.Score.Denom.GTE(r.EpochScore.Score.Denom) &&
+			out.Score.Variance.Num.GTE(r.EpochScore.Variance.Num) && out.Score.Variance.Denom.GTE(r.EpochScore.Variance.Denom))
+		verif_assert("decayed-score-not-above-undecayed-sum", out.Score.Score.Num.LTE(r.Score.Score.Num.Add(r.EpochScore.Score.Num)) && out.Score.Score.Denom.LTE(r.Score.Score.Denom.Add(r.EpochScore.Score.Denom)) &&
+			out.Score.Variance.Num.LTE(r.Score.Variance.Num.Add(r.EpochScore.Variance.Num)) && out.Score.Variance.Denom.LTE(r.Score.Variance.Denom.Add(r.EpochScore.Variance.Denom)))
+	}
+	verif_reach("end")
+}
